@@ -404,8 +404,9 @@ struct HashMgrSim : Sim {
                 return v;
         }
 
-        uint32_t seg_len(St &s, int64_t cls, int64_t sub)
+        uint32_t seg_len(St &s, int64_t cls, int64_t sub_)
         {
+                uint64_t sub = (uint64_t) sub_ & 0xffffffffull;
                 uint32_t B = (uint32_t) s.d->block;
                 uint32_t maxlen = s.size_regime == 2 ? (1u << 20) : s.size_regime == 1 ? 8192 : 1024;
                 switch (cls % 12) {
@@ -420,7 +421,7 @@ struct HashMgrSim : Sim {
                 case 8: return B * (1 + (uint32_t) (sub % 8)) + 1 + (uint32_t) ((sub >> 3) % (B - 1)); // blocks + tail
                 case 9: return (uint32_t) (sub % (maxlen + 1));
                 case 10: return B - (uint32_t) s.d->lenfield - 1 + (uint32_t) (sub % 3); // around the padding boundary
-                default: return (uint32_t) ((sub * 2654435761u) % (maxlen + 1));
+                default: return (uint32_t) ((sub * 2654435761ull) % (maxlen + 1));
                 }
         }
 
@@ -811,11 +812,21 @@ Plan HashMgrSim::generate_long(uint64_t seed, bool thorough, uint64_t run_index)
                 for (size_t f = 0; f < g_algos[a].fams.size(); f++)
                         pairs.emplace_back(a, (int) f);
         auto pr = pairs[run_index % pairs.size()];
+        // which thresholds to cross: 1 = 2^29, 2 = 2^32, 3 = 2^32 + 2^29
+        int target;
+        if (thorough)
+                target = run_index < pairs.size() ? 3 : 1;
+        else if (run_index < pairs.size())
+                target = 1;
+        else {
+                target = 2; // the extra quick runs cross 2^32 on a seed-chosen pair
+                pr = pairs[g.below(pairs.size())];
+        }
         p.cfg["algo"] = pr.first;
         p.cfg["family"] = pr.second;
         p.cfg["api"] = g.chance(1, 3) ? API_ISAL : API_FAMILY;
-        // which thresholds to cross: 1 = 2^29, 2 = 2^32, 3 = 2^32 + 2^29
-        p.cfg["target"] = thorough ? 3 : ((run_index / pairs.size() == 0 && run_index % 7 == 3) ? 2 : 1);
+        p.cfg["target"] = target;
+        p.cfg["max_long"] = target >= 2 ? (thorough ? 2 : 1) : (thorough ? 4 : 2);
         p.cfg["short_clients"] = (int) g.below(3);
         // each op: one scheduling decision; a = client selector, b = length style, c = length value, d = misc
         int nops = 400;
@@ -850,9 +861,7 @@ void HashMgrSim::execute_long(const Plan &p, Env &e, RunResult &r)
         goal += 3 * d.block + 17; // end a little past the threshold
         s.mgr = e.mem.alloc(d.mgr_size, 64, START_FLUSH, &e.hidden, "manager", R_OBJECT);
         s.ctx_out = (uint64_t *) e.mem.alloc(8, 8, END_FLUSH, &e.hidden, "ctx_out slot", R_OUTPUT);
-        int nlong = std::max(1, std::min(s.f->lanes ? s.f->lanes : 1, 4)); // long clients (bounded: each hashes > goal bytes)
-        if (target >= 2)
-                nlong = std::min(nlong, 2);
+        int nlong = std::max(1, std::min(s.f->lanes ? s.f->lanes : 1, (int) p.get("max_long", 2))); // long clients (each hashes > goal bytes)
         int nshort = (int) p.get("short_clients");
         int K = nlong + nshort;
         s.cl.resize(K);
@@ -903,7 +912,7 @@ void HashMgrSim::execute_long(const Plan &p, Env &e, RunResult &r)
                 // choose a client that is not in flight
                 std::vector<int> el;
                 for (int i = 0; i < K; i++)
-                        if (!s.cl[i].in_flight && !(i < nlong && s.cl[i].complete))
+                        if (!s.cl[i].in_flight && !(i < nlong && s.cl[i].complete) && (i < nlong || (o.d & 3) == 0))
                                 el.push_back(i);
                 if (el.empty()) {
                         op_flush(s, false);
@@ -953,7 +962,7 @@ void HashMgrSim::execute_long(const Plan &p, Env &e, RunResult &r)
                 uint64_t dist = next_thr - pos;
                 uint64_t len;
                 if (dist > (8u << 20)) {
-                        // far from a threshold: a big segment (up to 2^32-1), landing at a seeded residue before the threshold
+                        // far from a threshold: a big segment (up to 2^32-1), landing at a seeded distance before the threshold
                         uint64_t maxseg = std::min<uint64_t>(0xffffffffull, dist - (uint64_t) ((o.c + salt * 977) % (4u << 20)) - 1);
                         switch (o.b % 4) {
                         case 0: len = maxseg; break;
@@ -963,15 +972,22 @@ void HashMgrSim::execute_long(const Plan &p, Env &e, RunResult &r)
                         }
                         if (len > maxseg)
                                 len = maxseg;
+                } else if (dist > (48u << 10)) {
+                        // approach: one or two medium segments ending at a seeded, unaligned distance (< 48 KiB) before the threshold
+                        uint64_t stop = 1 + (uint64_t) ((o.c ^ (salt * 7919)) % (40u << 10));
+                        len = (o.b & 1) ? dist - stop : std::max<uint64_t>(1, (dist - stop) / 2 + (o.c % 63));
                 } else {
                         // burst of small unaligned segments around the threshold
-                        switch (o.b % 5) {
+                        switch (o.b % 6) {
                         case 0: len = 1 + (o.c % (2 * d.block)); break;
-                        case 1: len = (o.c % (1u << 20)) + 1; break;
+                        case 1: len = (o.c % 8192) + 1; break;
                         case 2: len = d.block * (1 + o.c % 16) + (o.c >> 8) % d.block; break;
                         case 3: len = dist; break; // land exactly on the threshold
-                        default: len = dist + 1 + (o.c % (3 * d.block)); break; // straddle it
+                        case 4: len = dist + 1 + (o.c % (3 * d.block)); break; // straddle it
+                        default: len = (o.c % 2) ? dist - 1 : dist + d.block; break;
                         }
+                        if (len == 0)
+                                len = 1;
                 }
                 if (len > remaining)
                         len = remaining;
@@ -1023,6 +1039,7 @@ void HashMgrSim::execute_long(const Plan &p, Env &e, RunResult &r)
                 post_call_invariants(s, "submit");
                 r.cov.state(mix64(mix64((uint64_t) d.a * 16 + (uint64_t) (s.f - &d.fams[0]), pos >> 26), len >> 20));
         }
+        r.cov.hit("long_loop_iterations", (uint64_t) guard);
         op_flush(s, true);
         for (int i = 0; i < nlong; i++)
                 if (!s.cl[i].complete)
